@@ -123,7 +123,7 @@ def generate(rseed, tier, idx):
             if op.get("show") or op.get("save"):
                 op["plain_first"] = g.random() < 0.5
             ops.append(op)
-    return {"prop": ID, "ops": ops, "env": env, "subproc": idx % 16 == 5}
+    return {"prop": ID, "ops": ops, "env": env, "subproc": idx % 8 == 5}
 
 
 # ---------------------------------------------------------------------------
